@@ -12,6 +12,7 @@ release frees the value (`Witness.wrap_uaf`).  Strings need no condition at all:
 -/
 import NV.C06.Invariant
 import NV.C06.Counters
+import NV.C06.Strings
 import NV.C06.Spec
 
 namespace NV.C06
@@ -103,6 +104,26 @@ theorem string_never_freed_while_held (evs : List Bool) :
         exact RefOK_dec_dead .str r h ok legal.1 (by intro x; cases x) hd
       · rename_i hd
         exact ih _ _ (RefOK_dec_alive .str r h ok legal.1 (by simpa using hd)) legal.2 left hres
+
+/-- **string_cells_never_freed_while_held** (heap level, NO hypothesis on the number of holders): after any history,
+    a deallocated string (shared or malloc'ed) has no holder, and a live one has counter 0 (immortal after
+    saturation) or exactly its number of holders. -/
+theorem string_cells_never_freed_while_held (ops : List Op) (s : St) (h : run St.init ops = .ok s)
+    (c : Nat) (cell : Cell) (hc : s.heap[c]? = some cell) (hk : cell.kind.isStr = true) :
+    (cell.live = false → H s c = 0) ∧
+    (cell.live = true → cell.ref = 0 ∨ (cell.ref = H s c ∧ 0 < H s c ∧ H s c < 2 ^ SW)) := by
+  have inv := run_str_ok ops St.init s c h (Inv_init c) (by intro cell' hc'; rw [hc] at hc'; cases hc'; exact hk)
+  unfold CellOK at inv
+  rw [metaOf_some s c cell hc] at inv
+  constructor
+  · intro hl; rw [hl] at inv; exact inv
+  · intro hl
+    rw [hl] at inv
+    simp only [RefOK, hk, if_true] at inv
+    exact inv
+
+example : ∃ s cell, run St.init [.newstr 0 "a", .newstr 1 "a", .fill 2 3 0, .free 0, .free 1, .free 2] = .ok s ∧
+    s.heap[0]? = some cell ∧ cell.kind = .str ∧ cell.live = false := ⟨_, _, rfl, rfl, rfl, rfl⟩
 
 /-- a fresh string satisfies the invariant -/
 example : RefOK .str 1 1 := RefOK_new .str
